@@ -32,10 +32,10 @@ pub fn assumptions(prop: &str) -> Vec<String> {
         "x86_64 Linux writer only; src/mac and src/windows are not compiled on this host".to_string(),
         "the simulated kernel (ptrace/signal/procfs/mm/clock model in /verif/sim/src/kernel.rs, syscalls.rs) is the trusted base; its memory-call and ptrace semantics follow measurements on this sandbox's kernel (DESIGN.md 2.11)".to_string(),
         "real code: all of /repo/src/linux, dir_section.rs, mem_writer.rs and every dependency (nix, procfs-core, goblin, memmap2, scroll, error-graph, failspot, serde_json, std); stub: kernel, target process, clock, destination".to_string(),
-        "bounds: 1..64 threads, <= 200 map lines, regions <= 1 MiB, <= 5 requests per writer".to_string(),
+        "bounds: 1..130 threads, <= 200 map lines, application regions <= 1 MiB (one C01 world moves 5 GiB of stack data), mappings up to 1 TiB, <= 5 requests per writer".to_string(),
     ];
     match prop {
-        "C03" | "C04" => v.push("verdict is relative to the ptrace/signal/group-stop model; only handler-type signals (no default-action or job-control signals other than the writer's own SIGSTOP/SIGCONT) are generated".to_string()),
+        "C03" | "C04" => v.push("verdict is relative to the ptrace/signal/group-stop model; the generated signals are ones the target handles (standard, real-time, and - for C03 - the job-control stop signals SIGTSTP/SIGTTIN/SIGTTOU with handlers installed); no default-action signals, and no SIGSTOP/SIGCONT other than the writer's own".to_string()),
         "C17" => v.push("process_vm_readv honours page protections, /proc/pid/mem and PTRACE_PEEKDATA use FOLL_FORCE on private mappings (measured on this kernel); shared/device mappings not generated".to_string()),
         _ => {}
     }
